@@ -113,6 +113,9 @@ func report(o *checkOpts, prog *Program, results []*UnitResult, genFails map[str
 		viols = append(viols, violation{Obligation: "load", Reason: "repository does not load/type-check: " + loadErr, Status: "error"})
 	}
 	for n := range inLedger {
+		if o.updateLedger {
+			break
+		}
 		if _, ok := byName[n]; !ok {
 			unit := n[:strings.Index(n, "#")]
 			if _, failed := genFails[unit]; failed {
